@@ -288,7 +288,7 @@ def script_walks(chk, binary, wd, seed, count):
         else:
             calls = [{"op": "configure"}]
         scripts = {c: [script(c) for _ in range(4)] for c in cmds}
-        out.append({"config": cfg, "term": {"dangling": dang, "next_receipt": rnd.choice([1, 9998]), "chunk": rnd.choice([0, 0, 0, 1, 7, 64])}, "calls": calls,
+        out.append({"config": cfg, "term": {"dangling": dang, "next_receipt": rnd.choice([1, 9998]), "chunk": rnd.choice([0, 0, 0, 1, 7, 64]), "wchunk": rnd.choice([0, 0, 0, 1, 2, 50])}, "calls": calls,
                     "plan": {"exchanges": [], "scripts": scripts, "default": {"o": "ok", "status": {"amount": [1]}, "uid": [1, 2, 3, 4]}}})
     return out
 
